@@ -74,6 +74,8 @@ func ScenarioByName(name string) *Scenario {
 		sc = Irregular(arg(1), arg(2), arg(3), arg(4))
 	case "slow":
 		sc = Slow(arg(1), arg(2), arg(3), arg(4))
+	case "leavesilent":
+		sc = LeaveSilent(arg(1), arg(2), arg(3))
 	case "dups":
 		sc = Dups(arg(1), arg(2))
 	case "burst":
@@ -249,6 +251,13 @@ func RunItem(it Item) *Result {
 			// events may unknowingly reuse a height; what follows is outside the liveness property
 			res.Counters["suffixes_after_an_equivocation"]++
 			return
+		}
+		if !sr.Quiescent && x.C.Outside != "" {
+			res.Counters["suffixes_outside_the_liveness_premise"]++
+			return
+		}
+		if x.C.Outside == "" && x.Sc.CountsPremise {
+			res.Counters["suffixes_inside_the_liveness_premise"]++
 		}
 		if !sr.Quiescent {
 			res.NotQuiescent++
